@@ -55,3 +55,39 @@ func verifH_C07_ackwhiledown() {
 	verifAssert(len(c.pendingAck) == 0, "C07: acknowledgement written on the next connection but still pending")
 	verifReach("end")
 }
+
+// L07.d': the same foreign failure while a PUBREL sits in the read buffer
+// already: the marker is deleted, PUBCOMP cannot be written, it stays owed and
+// is the first and only packet after CONNECT on the next connection.
+func verifH_C07_pubrelwhiledown() {
+	store := &verifStore{}
+	rugged := &ruggedPersistence{Persistence: store}
+	c := verifNewClient(rugged, &Config{PauseTimeout: verifTimeoutChoice()})
+	conn := &verifInConn{}
+	conn.rEOF = true
+	id := verifU16("id")
+	verifAssume(id != 0)
+	key := uint(id) | remoteIDKeyFlag
+	rugged.Save(key, [][]byte{{0x50, 2, byte(id >> 8), byte(id)}})
+	conn.in = []byte{0x62, 2, byte(id >> 8), byte(id)}
+	<-c.connSem
+	c.connSem <- conn
+	c.readConn = conn
+	c.bufr = verifNewBufr(conn)
+	blockSignalChan(c.offlineSig)
+	clearSignalChan(c.onlineSig)
+	c.bufr.Peek(1) // the PUBREL is buffered before the connection goes
+	conn.Close()
+	<-c.writeSem
+	c.writeSem <- connPending
+
+	_, _, err := c.ReadSlices()
+	verifAssert(err != nil, "C04: ReadSlices returned a message from a stream without PUBLISH")
+	verifAssert(len(conn.wlog) == 0, "C07: bytes written to a connection another writer already gave up")
+	verifAssert(store.find(key) < 0, "C04: marker kept after PUBREL")
+	want := []byte{0x70, 2, byte(id >> 8), byte(id)}
+	after := verifNextConnection(c, store, "C04")
+	verifAssert(verifBytesEq(after, want), "C04: the PUBCOMP owed while another writer had lost the connection is not sent (exactly once, first) on the next connection")
+	verifAssert(len(c.pendingAck) == 0, "C04: PUBCOMP written on the next connection but still pending")
+	verifReach("end")
+}
